@@ -93,7 +93,6 @@ def judge_egr(pi):
 
 class C15(EgSpec):
     prop = 'C15'
-    level = 'partial'
     coq_targets = ['theories/props/C15.vo', 'theories/Dispatch.vo']
     props_file = 'theories/props/C15.v'
     trusted_base = EG_TB + [
